@@ -215,6 +215,9 @@ Lemma src_xpub_position_eq m x :
   src_xpub_position m (x_begin x) (x_off x) = add64 m (x_begin x) (x_off x).
 Proof. unfold src_xpub_offer_position, src_xpub_position. split; src_robust. Qed.
 
+Lemma src_xpub_offer_below_limit_eq m position limit : src_xpub_offer_below_limit m position limit = Ok (position <? limit).
+Proof. unfold src_xpub_offer_below_limit. src_robust. Qed.
+
 (* ---- TermAppender lengths ---- *)
 Lemma src_align_FA m v : src_align m v GenConsts.FRAME_ALIGNMENT = align32 m v.
 Proof. apply src_align_frame. Qed.
